@@ -1,5 +1,5 @@
 (* C11 — Routing follows the most specific live claim.  Pinned statements only. *)
-From VpnModel Require Import Base RangeMatch RangeMatchProofs Table TableProofs.
+From VpnModel Require Import Base RangeMatch RangeMatchProofs Table TableProofs Nonce Replay Core Conn PeerCrypto NodeInfo Node NodeProofs NextHopProofs TickPeersProofs FloodProofs.
 
 (* T1: Range::matches = same address length, prefix within the address, first prefix_len bits agree —
    for every byte string and every prefix 0..255 (over-long prefixes never match) *)
@@ -46,6 +46,26 @@ Theorem C11_peer_removed_nothing_cached : forall t now peer, (0 < now)%Z ->
   (forall e, e_peer e <> peer -> (In e (cache t') <-> (In e (cache t) /\ (now <= e_timeout e)%Z))).
 Proof. exact remove_claims_clean. Qed.
 
+(* T5 (node clause): no live claim and no cached decision for the destination - router mode drops the frame and counts it ... *)
+Theorem C11_unknown_dest_router_drops : forall salts now n frame s d t',
+  parse_frame (n_cfg n) frame = Ok (s, d) -> table_lookup (n_table n) now d = (None, t') -> c_broadcast (n_cfg n) = false ->
+  snd (handle_iface salts now n frame) = [] /\ n_dropped (fst (handle_iface salts now n frame)) = n_dropped n + 1.
+Proof. exact iface_unknown_router_drops. Qed.
+
+(* ... while switch and hub modes send it to all peers: to every peer exactly once, in every state a node can reach *)
+Theorem C11_unknown_dest_flooded_to_all_peers : forall salts c t0 evs now frame s d t',
+  let n := nrun salts (node_new c t0) evs in
+  parse_frame (n_cfg n) frame = Ok (s, d) -> table_lookup (n_table n) now d = (None, t') -> c_broadcast (n_cfg n) = true ->
+  map dst_of (snd (handle_iface salts now n frame)) = map (fun e => Some (fst e)) (n_peers n).
+Proof. exact reachable_flood_every_peer_once. Qed.
+
+(* T6 (node clause): a decision - cached or fresh - is never for a non-peer, in every state a node can reach ("never beyond the life of
+   the ... peer it came from") *)
+Theorem C11_decision_is_for_a_peer : forall salts c t0 evs now dst p, Forall (fun te => (0 < fst te)%Z) evs ->
+  fst (table_lookup (n_table (nrun salts (node_new c t0) evs)) now dst) = Some p ->
+  ahas (n_peers (nrun salts (node_new c t0) evs)) p = true.
+Proof. exact next_hop_is_peer. Qed.
+
 Example C11_ex_lpm :
   let t := table_set_claims (table_set_claims (table_new 300 300) 5 1 [([10;0;0;0], 8)]) 5 2 [([10;1;0;0], 16)] in
   (fst (table_lookup t 6 [10;1;2;3]), fst (table_lookup t 6 [10;2;2;3]), fst (table_lookup t 6 [11;0;0;0])) = (Some 2, Some 1, None).
@@ -57,3 +77,6 @@ Print Assumptions C11_lookup_uncached.
 Print Assumptions C11_lookup_cached.
 Print Assumptions C11_sweep_exact.
 Print Assumptions C11_peer_removed_nothing_cached.
+Print Assumptions C11_unknown_dest_router_drops.
+Print Assumptions C11_unknown_dest_flooded_to_all_peers.
+Print Assumptions C11_decision_is_for_a_peer.
